@@ -52,6 +52,10 @@ def exc_catalogue():
         ('MemoryError', lambda: MemoryError()), ('NotImplementedError', lambda: NotImplementedError()), ('TypeError', lambda: TypeError('t')),
         ('SystemError', lambda: SystemError('s')), ('ExceptionGroup', lambda: ExceptionGroup('g', [ValueError(1)])),
         ('LookupError-bytes', lambda: LookupError(b'\xff\xfe')),
+        ('ValueError-braces', lambda: ValueError('{x} {0} {} {')), ('KeyError-dictkey', lambda: KeyError('{"a": [1]}')),
+        ('RuntimeError-percent', lambda: RuntimeError('%s %d %(x)s %')), ('ValueError-markup', lambda: ValueError('</p><script>{code}</script>')),
+        ('ValueError-template', lambda: ValueError('{#x}{/x}{@iterate}{~lb}')), ('ValueError-empty', lambda: ValueError('')),
+        ('ValueError-nul', lambda: ValueError('a\x00b\x1b[0m')),
     ]
 
 
@@ -67,6 +71,12 @@ def behaviours():
             for kind in ('raise', 'return'):
                 out.append(('%s:%s:%s' % (kind, cn, 'brk' if brk else 'nonbrk'), kind,
                             (lambda cls=cls, brk=brk: cls(is_breaking=brk)), cls.code))
+    for tag, detail in [('braces', '{x} {0} {'), ('percent', '%s %(y)s'), ('markup', '<p>{code}</p>'), ('nonascii', 'é☃')]:
+        for kind in ('raise', 'return'):
+            out.append(('%s:Forbidden-detail-%s' % (kind, tag), kind,
+                        (lambda detail=detail: errors.Forbidden(detail, message='m{0}%s', error_type='http://e/{t}')), 403))
+            out.append(('%s:ISE-detail-%s' % (kind, tag), kind,
+                        (lambda detail=detail: errors.InternalServerError(detail, is_breaking=False)), 500))
     out.append(('return:Response', 'return', lambda: Response('acted'), 200))
     for name, v in [('str', 'text'), ('None', None), ('int', 3), ('float', 2.5), ('dict', {'a': 1}), ('list', []),
                     ('bytes', b'bytes'), ('object', object()), ('emptystr', '')]:
@@ -258,12 +268,14 @@ def run_product(spec, ctx):
         p = call(app, '/ok')
         probe0 = (p.status, p.body, p.exc)
         assert probe0 == (200, b'fine', None), probe0
-        for pos in positions(shape):
-            for beh in beh_table():
-                case = {'shape': spec['shape'], 'handler': handler, 'pos': pos, 'beh': beh[0]}
+        accepts = ['text/html', 'application/json', 'application/xml', 'text/plain', None]
+        for pi, pos in enumerate(positions(shape)):
+            for bi, beh in enumerate(beh_table()):
+                accept = accepts[(pi + bi) % len(accepts)]
+                case = {'shape': spec['shape'], 'handler': handler, 'pos': pos, 'beh': beh[0], 'accept': accept}
                 ctx.case(case)
                 try:
-                    run_one(ctx, app, shape, cell, pos, beh, handler, probe0, case)
+                    run_one(ctx, app, shape, cell, pos, beh, handler, probe0, case, accept=accept)
                     if nontrivial(pos, beh, handler):
                         ctx.nt(case, sample=len(ctx.samples) < 2 and beh[0].startswith('raise:R'))
                 except Exception as e:
@@ -345,6 +357,6 @@ def replay(case, kind, ctx):
         app = build_app(shape, case['handler'], cell)
         p = call(app, '/ok')
         beh = [b for b in beh_table() if b[0] == case['beh']][0]
-        run_one(ctx, app, shape, cell, case['pos'], beh, case['handler'], (p.status, p.body, p.exc), case)
+        run_one(ctx, app, shape, cell, case['pos'], beh, case['handler'], (p.status, p.body, p.exc), case, accept=case.get('accept', '*/*'))
     else:
         history_body(case, ctx)
